@@ -99,6 +99,13 @@ def subharnesses(tier):
                     if m == 'up_from_frozen':
                         spec['servers'][j]['state'] = 'frozen'
                     subs.append(('step-%s-D%d-%s-s%d' % (topo, D, m, j), spec))
+                    if m in ('remove_node', 'down', 'add_node'):
+                        # siblings that offer the same traits: the aggregate
+                        # must remember every child, not only new bits
+                        spec2 = dict(spec, servers=[dict(sv, traits=3)
+                                                    for sv in spec['servers']])
+                        subs.append(('step-%s-D%d-%s-s%d-sametraits' % (
+                            topo, D, m, j), spec2))
     # ---- (b) probes
     ptopos = ['T2'] if tier == 'quick' else ['T3', 'T2']
     for topo in ptopos:
